@@ -188,6 +188,7 @@ class Interp:
         self.path = []  # (atom, bool, site)
         self.decided = {}
         self.lazy_cache = {}
+        self.div_zero_fork = False
         self.exc_stack = []
         self.depth = 0
         self.frames = []
@@ -969,6 +970,12 @@ class Interp:
             return num_mul(self.as_num(a, node), self.as_num(b, node))
         if isinstance(op, ast.Div):
             try:
+                if self.div_zero_fork:
+                    den = self.as_num(b, node)
+                    if not isinstance(den, (int, Fraction)):
+                        z = cmp_cond("==", den, 0)
+                        if self.truth(z, node):
+                            raise ZeroDivisionError
                 return num_div(self.as_num(a, node), self.as_num(b, node))
             except ZeroDivisionError:
                 raise AbsRaise(self.make_exc("ZeroDivisionError", "division by zero"), self.site(node), True)
@@ -1202,12 +1209,18 @@ class Interp:
             return Sym(f"{obj.name}[{show(idx)}]", "any", tag=obj.tag)
         self.unsupported(f"subscript of {obj!r}", node)
 
+    def mutated(self, container, node=None):
+        if self.hooks is not None and hasattr(self.hooks, "on_mutate"):
+            self.hooks.on_mutate(self, container, node)
+
     def store_subscript(self, obj, idx, v, node):
         if isinstance(obj, ListV) and isinstance(idx, int):
             obj.items[idx] = v
+            self.mutated(obj, node)
             return
         if isinstance(obj, DictV):
             obj.items[self.hashable(idx, node)] = v
+            self.mutated(obj, node)
             return
         if isinstance(obj, Ext):
             self.emit("ext" if obj.origin == "lib" else "user", obj.path + ".__setitem__", [idx, v], node=node, callee=obj)
